@@ -169,6 +169,9 @@ func intact(v, w any) bool {
 		switch w.(type) {
 		case []any, map[string]any:
 			a, b := reflect.ValueOf(v), reflect.ValueOf(w)
+			if a.Kind() == reflect.Slice && b.Kind() == reflect.Slice && a.Len() == 0 && b.Len() == 0 {
+				return true // empty arrays have no identity (C05.F2)
+			}
 			return a.Pointer() == b.Pointer() && a.Len() == b.Len()
 		}
 		return false
